@@ -5,6 +5,7 @@ from common import enc_arr, enc_f, coq_q, dec_res
 from framework import prove, correspond, sweep, finish
 from checks import isect_common as ic
 import isect_oracle as io
+import oracle_q as oq
 
 DEPS = ["Props/C03.vo", "Corr/C03.vo", "Corr/C02.vo"]
 HEADER = "From Coq Require Import List QArith.\nFrom BZ Require Import Corr.Common Corr.C03.\nImport ListNotations.\nOpen Scope Q_scope.\n"
@@ -102,6 +103,48 @@ def known_f2(c, op, cfg, raw):
     return None
 
 
+# F14 (pinned): the two halves of a degree-6 net cross transversally at (s, t) = (1/2, 3/4) (sine of the angle 0.087), 0.02 away
+# from another crossing.  The pure-Python all_intersections returns the other two common points and loses this one; the
+# compiled routine returns all three.  Traced: in round 4 there are 72 > 64 candidates, prune_candidates (convex hulls +
+# separating axes, no tolerance) drops the pairs [0.469,0.5]x[0.719,0.75] and [0.5,0.531]x[0.719,0.75] whose hulls touch
+# only in the common end point, which the two subdivisions computed 1 ulp apart.
+
+
+def pinned_f14(ctx):
+    import json as _json
+    rows = _json.load(open(__import__("os").path.join(__import__("os").path.dirname(__file__), "f14_nodes.json")))
+    L = [[F(float.fromhex(x)) for x in r] for r in rows["left"]]
+    R = [[F(float.fromhex(x)) for x in r] for r in rows["right"]]
+    # exact evidence that (1/2, 3/4) is (within 2^-45 of the net size) a common point with a clear crossing angle
+    res = io.residual(L, R, F(1, 2), F(3, 4))
+    n = len(L[0]) - 1
+    d1 = [n * oq.bernstein([r[i + 1] - r[i] for i in range(n)], F(1, 2)) for r in L]
+    d2 = [n * oq.bernstein([r[i + 1] - r[i] for i in range(n)], F(3, 4)) for r in R]
+    cr = d1[0] * d2[1] - d1[1] * d2[0]
+    certified = res <= F(1, 2 ** 45) * io.net_size(L) and cr * cr * 2 ** 14 >= (d1[0] ** 2 + d1[1] ** 2) * (d2[0] ** 2 + d2[1] ** 2)
+    out = {}
+    from common import run_impl
+    for cfg, op in (("pure", "hazmat.all_intersections"), ("speedup", "shim.all_intersections")):
+        r = run_impl(cfg, [{"op": op, "args": [enc_arr(L), enc_arr(R)]}])[0]
+        if "exc" in r:
+            out[cfg] = "raised " + r["exc"]
+            continue
+        arr, _flag = dec_res(r["ok"])
+        got = list(zip(arr[0], arr[1])) if arr and arr[0] else []
+        out[cfg] = any(abs(s_ - F(1, 2)) < TOL and abs(t_ - F(3, 4)) < TOL for s_, t_ in got)
+    ctx.corr["sweep:pinned_F14"] = {"cases": 1, "certified_common_point_with_clear_angle": bool(certified), "crossing_reported": {k: str(v) for k, v in out.items()},
+                                   "kind": "pinned input of known finding F14"}
+    if certified and out.get("pure") is False:
+        ctx.known_hits.append("F14 the pure-Python all_intersections loses the transversal crossing at (1/2, 3/4) of the pinned degree-6 pair "
+                              "(checks/f14_nodes.json): with more than 64 candidates the convex-hull pruning rejects every candidate pair around "
+                              "it, because the crossing is a shared END point of the sub-curves and the two hulls meet only in that corner, "
+                              "computed 1 ulp apart; the compiled routine happens to keep it")
+    for cfg, v in out.items():
+        if isinstance(v, str):
+            ctx.violations.append({"kind": "property-fails-on-implementation", "sweep": "pinned_F14", "config": cfg, "op": "all_intersections",
+                                   "case": {"nodes": "checks/f14_nodes.json"}, "verdict": v})
+
+
 def run(ctx):
     prove(ctx, DEPS)
     ic.correspond_lines(ctx, n_quick=150)
@@ -136,6 +179,7 @@ def run(ctx):
     sweep(ctx, "disjoint_boxes_give_empty_result", dis, [("Curve.intersect", ic.intersect_args("GEOMETRIC"))], judge_c03)
     sweep(ctx, "tangent_boxes_along_a_line_containing_one_curve", gen_tangent_line_family(ctx),
           [("Curve.intersect", ic.intersect_args("GEOMETRIC"))], judge_c03, known=known_f2)
+    pinned_f14(ctx)
     return finish(ctx, "PROVED: what can never go wrong - disjoint control boxes imply no common point (every degree, over R, from the "
                   "convex-hull theorem of C01); two non-parallel segments give exactly their crossing (regenerated check_lines); the "
                   "de-duplication rule never merges pairs farther apart than 2^-36 sqrt 2 and always merges an exact repeat (hand model "
